@@ -232,22 +232,26 @@ def run_case(desc, ctx):
             if k == rank:
                 ctx.check(abs(float(np.sum(scf.values)) - 1) <= 1e-8, "mca_scf_sums_to_one", f"sum = {float(np.sum(scf.values))!r}", **disc)
     # (d) CCA: correlation between paired scores = canonical correlations
+    # (correlations of numerically null modes - reference singular value below 1e-6 of the first, e.g. modes beyond the
+    #  rank of an analytic signal - are 0/0 and are not compared)
+    if not np.all(good):
+        ctx.event("null_modes_excluded_from_correlations")
     cc = np.real(np.diag(corr(S1, S2)))
     if disc["base"] == "CCA":
-        e = relerr(cc, sref, scale=1.0)
+        e = relerr(cc[good], sref[good], scale=1.0)
         ctx.check(e <= tol, "cca_canonical_correlations", f"corr(scores1_i, scores2_i) = {cc} vs reference {sref}", **disc)
     # (e) reported correlations are genuine correlations
     ccc = call(ctx, "cross_corr_raises", model.cross_correlation_coefficients, disc=disc)
     if not isinstance(ccc, Failed):
         v = np.asarray(ccc.values, dtype=float)
-        ctx.check(relerr(v, cc, scale=1.0) <= 1e-9, "cross_correlation_coefficients", f"reported {v} vs corr of returned scores {cc}", **disc)
-        ctx.check(np.all(np.abs(v) <= 1 + 1e-9), "correlation_in_range", f"cross correlation outside [-1,1]: {v}", **dict(disc, which="cross"))
+        ctx.check(relerr(v[good], cc[good], scale=1.0) <= 1e-9, "cross_correlation_coefficients", f"reported {v} vs corr of returned scores {cc}", **disc)
+        ctx.check(np.all(np.abs(v[good]) <= 1 + 1e-9), "correlation_in_range", f"cross correlation outside [-1,1]: {v}", **dict(disc, which="cross"))
     for which, S, fn in (("X", S1, model.correlation_coefficients_X), ("Y", S2, model.correlation_coefficients_Y)):
         cm = call(ctx, "corr_coef_raises", fn, disc=dict(disc, which=which))
         if isinstance(cm, Failed):
             continue
-        v = np.asarray(cm.values)
-        want = corr(S, S)
+        v = np.asarray(cm.values)[np.ix_(good, good)]
+        want = corr(S, S)[np.ix_(good, good)]
         ctx.check(relerr(v, want, scale=1.0) <= 1e-9, "correlation_coefficients", f"{which}: reported matrix differs from corr of scores ({relerr(v, want, scale=1.0):.3g}); diag {np.real(np.diag(v))[:3]}",
                   **dict(disc, which=which))
         ctx.check(np.all(np.abs(np.diag(v) - 1) <= 1e-9), "self_correlation_one", f"{which}: diag = {np.real(np.diag(v))[:4]}", **dict(disc, which=which))
